@@ -119,31 +119,38 @@ def prepare(ctx, props_modules):
             ctx.build_output += out[-2000:]
         # the property's theorems
         ok = True
+        built = []
         for mod in props_modules:
             rc, out = sh(["lake", "build", mod], cwd=LEAN)
             if rc != 0:
                 ok = False
                 ctx.build_output += out[-4000:]
                 ctx.say("[build] %s FAILED" % mod)
+            else:
+                built.append(mod)
         ctx.build_ok = ok
         # audit
         hits = grep_audit()
         if hits:
             ctx.audit_problems += ["forbidden token: " + h for h in hits]
+        auditable = []
         for mod in props_modules:
             f = os.path.join(LEAN, mod.replace(".", "/") + ".lean")
-            ctx.obligations += theorems_of(f)
-        if ok and ctx.obligations:
+            ths = theorems_of(f)
+            ctx.obligations += ths
+            if mod in built:
+                auditable += ths      # theorems of a module that did not build stay undischarged
+        if built and auditable:
             tmp = os.path.join(LEAN, ".lake", "audit_%s_%d.lean" % (ctx.pid, os.getpid()))
             with open(tmp, "w") as fh:
-                fh.write("".join("import %s\n" % m for m in props_modules))
-                fh.write("".join("#print axioms %s\n" % t for t in ctx.obligations))
+                fh.write("".join("import %s\n" % m for m in built))
+                fh.write("".join("#print axioms %s\n" % t for t in auditable))
             rc, out = sh(["lake", "env", "lean", tmp], cwd=LEAN)
             os.remove(tmp)
             seen = {}
             for m in re.finditer(r"'([^']+)' (does not depend on any axioms|depends on axioms: \[([^\]]*)\])", out):
                 seen[m.group(1)] = set(x.strip() for x in (m.group(3) or "").replace("\n", " ").split(",") if x.strip())
-            for t in ctx.obligations:
+            for t in auditable:
                 if t not in seen:
                     ctx.audit_problems.append("no axiom report for " + t)
                 elif not seen[t] <= ALLOWED_AXIOMS:
